@@ -161,10 +161,60 @@ fn set_remote_mid(l: &LivePc, mode: u8, text: &str) -> (&'static str, u16) {
         (r, nm)
     })
 }
+/// big remote descriptions: `k` media sections (distinct mids), many candidates / rids / ssrc lines, one very long line
+fn big_sdp(rng: &mut Rng, k: usize) -> String {
+    let head: String = TEMPLATE.split("m=audio").next().unwrap().to_string();
+    let mut s = head.replace("a=group:BUNDLE 0 1 2\r\n", "");
+    for i in 0..k {
+        let kind = *rng.pick(&["audio", "video", "application"]);
+        match kind {
+            "application" => s.push_str(&format!("m=application 9 UDP/DTLS/SCTP webrtc-datachannel\r\nc=IN IP4 0.0.0.0\r\na=mid:{i}\r\na=sctp-port:5000\r\n")),
+            _ => {
+                s.push_str(&format!("m={kind} 9 UDP/TLS/RTP/SAVPF 96 97\r\nc=IN IP4 0.0.0.0\r\na=mid:{i}\r\na=sendrecv\r\na=rtcp-mux\r\na=rtpmap:96 {}/90000\r\na=rtpmap:97 rtx/90000\r\na=fmtp:97 apt=96\r\n", if kind == "audio" { "opus" } else { "H264" }));
+                for j in 0..rng.below(4) { s.push_str(&format!("a=rid:{j} send pt=96\r\na=ssrc:{} cname:c\r\na=candidate:{j} 1 udp {} 10.0.{}.{} {} typ host\r\n", 1000 * i + j as usize, rng.below(1 << 31), i % 250, j, 1024 + j)); }
+            }
+        }
+        s.push_str("a=ice-ufrag:abcd\r\na=ice-pwd:0123456789abcdefghijklmn\r\na=fingerprint:sha-256 00:11:22:33:44:55:66:77:88:99:AA:BB:CC:DD:EE:FF:00:11:22:33:44:55:66:77:88:99:AA:BB:CC:DD:EE:FF\r\na=setup:actpass\r\n");
+    }
+    if rng.chance(1, 3) { s.push_str(&format!("a=x-long:{}\r\n", "y".repeat(60_000))); }
+    s
+}
+
+/// Offerer side: our own offer is applied locally, then a (mutated) ANSWER / PRANSWER derived from it arrives
+fn run_sdpanswer(run: &mut Run, live: &LivePc, rng: &mut Rng, nt: bool) {
+    let l = std::panic::AssertUnwindSafe(live);
+    let seed = rng.next();
+    let mut r2 = Rng::new(seed);
+    exec(run, "sdpset", &format!("answer {seed}"), "PeerConnection::set_remote_description(answer)", nt, Some((256, 4 << 20, 4096)), move || {
+        l.rt.block_on(async {
+            let pc = PeerConnection::new(cfg(0));
+            let _ = pc.add_transceiver(rustrtc::MediaKind::Audio, rustrtc::TransceiverDirection::SendRecv);
+            let _ = pc.add_transceiver(rustrtc::MediaKind::Video, rustrtc::TransceiverDirection::SendRecv);
+            let _ = pc.create_data_channel("x", None);
+            if let Ok(offer) = pc.create_offer().await {
+                let text = offer.to_sdp_string();
+                let _ = pc.set_local_description(offer);
+                let ans_text = mutate_sdp(&mut r2, &text.replace("a=setup:actpass", "a=setup:active"));
+                let ty = if r2.chance(1, 4) { SdpType::Pranswer } else { SdpType::Answer };
+                if let Ok(d) = SessionDescription::parse(ty, &ans_text) {
+                    if tokio::time::timeout(std::time::Duration::from_secs(5), pc.set_remote_description(d)).await.is_err() { panic!("set_remote_description(answer) did not return within 5 s"); }
+                    // re-INVITE: a second (mutated) offer on the now-stable connection
+                    let re = mutate_sdp(&mut r2, &text);
+                    if let Ok(d2) = SessionDescription::parse(SdpType::Offer, &re) { let _ = tokio::time::timeout(std::time::Duration::from_secs(5), pc.set_remote_description(d2)).await; }
+                }
+            }
+            pc.close();
+        });
+        "noncompared".into()
+    });
+}
+
 fn run_sdpset(run: &mut Run, live: &LivePc, mode: u8, s: &str, nt: bool) {
     let t = s.to_string();
     let l = std::panic::AssertUnwindSafe(live);
-    exec(run, "sdpset", &format!("{mode} {}", hex(s.as_bytes())), "PeerConnection::set_remote_description", nt, None, move || {
+    // allocation oracle: 2·(256·len + 4 MiB) + 512 — a media section costs a transceiver, receiver, track ring …
+    // (tens of KB), so the constant is large; what it excludes is growth that is super-linear in the description
+    exec(run, "sdpset", &format!("{mode} {}", hex(s.as_bytes())), "PeerConnection::set_remote_description", nt, Some((256, 4 << 20, s.len() as u64)), move || {
         let r = set_remote(&l, mode, &t);
         if r == "timeout" { panic!("set_remote_description did not return within 5 s"); }
         "noncompared".into()
@@ -201,6 +251,15 @@ pub fn special(run: &mut Run, rng: &mut Rng, thorough: bool) {
         let s = mutate_sdp(rng, if sdes { TEMPLATE_SDES } else { TEMPLATE });
         run_sdpset(run, &live, if sdes { rng.range(1, 2) as u8 } else { rng.below(3) as u8 }, &s, true);
     }
+    // large descriptions (many sections / candidates / rids, 60 KB lines) and the answer / re-INVITE paths
+    for k in if thorough { vec![1usize, 8, 64, 300, 1000] } else { vec![1usize, 8, 64, 200] } {
+        let s = big_sdp(rng, k);
+        run_sdpparse(run, &s, true);
+        run_sdpset(run, &live, 0, &s, true);
+        let m = mutate_sdp(rng, &s);
+        run_sdpset(run, &live, rng.below(3) as u8, &m, true);
+    }
+    for _ in 0..(if thorough { 1_500 } else { 60 }) { run_sdpanswer(run, &live, rng, true); }
     for _ in 0..(if thorough { 20_000 } else { 800 }) {
         let n = rng.below(200) as usize;
         let s = String::from_utf8_lossy(&rng.bytes(n)).to_string();
